@@ -90,6 +90,25 @@ func (ex *Exec) scanWrites(fn *ssa.Function, blocks map[*ssa.BasicBlock]bool, ws
 			case *ssa.MapUpdate:
 				addMapHeap(ins.Map.Type().Underlying().(*types.Map))
 			case *ssa.Call:
+				if b, ok := ins.Common().Value.(*ssa.Builtin); ok && (b.Name() == "copy" || b.Name() == "append") {
+					// copy(dst, src) and append(s[:i], ...) write into the backing array of their first operand
+					v := ins.Common().Args[0]
+					isWrite := b.Name() == "copy"
+					if sl, ok := v.(*ssa.Slice); ok {
+						if sl.High != nil {
+							isWrite = true
+						}
+						v = sl.X
+					}
+					if ld, ok := v.(*ssa.UnOp); ok && isWrite {
+						rr := rootOf(ld.X)
+						if a, ok := rr.(*ssa.Alloc); ok && !a.Heap {
+							ws.cells[a] = true
+						} else if pt, ok := rr.Type().Underlying().(*types.Pointer); ok {
+							addPtrHeap(pt.Elem())
+						}
+					}
+				}
 				ex.scanCallWrites(ins.Common(), ws, depth, seen)
 			}
 		}
@@ -643,7 +662,7 @@ func (fr *Frame) enterLoop(li *loopInfo, cur *State) *State {
 			unsup("loop assigns a non-term local %s", a.Comment)
 		}
 		et := a.Type().(*types.Pointer).Elem()
-		nv := Val{t: vc.fresh("l_"+sanitize(a.Comment), S.sortOf(et)), typ: et}
+		nv := Val{t: vc.fresh("l_"+sanitize(a.Comment), S.sortOf(et)), typ: et, backing: v.backing}
 		h.cells[a] = nv
 		ex.assumeAllocated(h, nv)
 	}
